@@ -69,6 +69,19 @@ def renamedView (f : JStr → JStr) (e : JStr × Entry) : JStr × Option JStr :=
 /-- what the property asks of a synthesised class when renaming: entry `<new name>.class` holding the class of that name -/
 def createdView (f : JStr → JStr) (name : JStr) : JStr × Option JStr := (f name ++ DOT_CLASS, some (f name))
 
+/-- the `InnerClasses` entry a nested class must carry after renaming with the class map `f`: the new name of the class,
+the new name of its enclosing class (inner classes only), simple name and flags as without renaming -/
+def renamedInnerClass (f : JStr → JStr) (n : Nest) : InnerClass :=
+  { inner := f n.className, outer := if n.kind = .inner then some (f n.enclClass) else none,
+    name := (innerClassOf n).name, flags := n.access }
+
+/-- the `EnclosingMethod` attribute an anonymous or local nested class must carry after renaming: the new name of the
+enclosing class, the method with its descriptor rewritten (`none` when the descriptor is malformed) -/
+def renamedEnclMethod (f : JStr → JStr) (n : Nest) : Option EnclMethod :=
+  match n.enclMethod with
+  | none => some { cls := f n.enclClass, method := none }
+  | some (mn, md) => (MapDesc.mapDesc f md).map (fun d => { cls := f n.enclClass, method := some (mn, d) })
+
 /-- no `;` and non-empty: what `map_desc` needs of a replacement name -/
 def cleanName (s : JStr) : Bool := !s.isEmpty && !s.contains MapDesc.SEMI
 
